@@ -1,4 +1,4 @@
-use super::{DocumentCursor, Ident};
+use super::{DocumentCursor, Ident, Scope};
 use crate::document::{as_pos_range, DocumentRequest};
 use color_eyre::eyre::Result;
 use lsp_types::{
@@ -10,7 +10,7 @@ use spl_frontend::{
         Expression, GlobalDeclaration, Identifier, ParameterDeclaration, Program, Reference,
         Statement, TypeExpression, Variable, VariableDeclaration,
     },
-    table::{Entry, GlobalEntry, GlobalTable, LookupTable},
+    table::{Entry, GlobalEntry, GlobalTable},
     Shiftable, ToRange, ToTextRange,
 };
 use std::collections::HashMap;
@@ -25,14 +25,14 @@ pub async fn rename(
     let new_name = params.new_name;
     if let Some(cursor) = super::doc_cursor(doc_params, doctx).await? {
         if let Some(ident) = &cursor.ident() {
-            let on_context_name = cursor.is_context_name(ident);
+            let scope = cursor.scope(ident);
             let DocumentCursor { doc, context, .. } = cursor;
             if let Some(entry) = context {
                 // Early return for int
                 if &ident.value == "int" {
                     return Ok(None);
                 }
-                let idents = find_referenced_identifiers(ident, on_context_name, &entry, &doc.ast, &doc.table);
+                let idents = find_referenced_identifiers(ident, scope, &entry, &doc.ast, &doc.table);
                 // it seems like the original identifier is changed automatically,
                 // so it does not need to be added to `idents`
                 let text_edits = idents
@@ -81,10 +81,10 @@ pub async fn find(
     let uri = doc_params.text_document.uri.clone();
     if let Some(cursor) = super::doc_cursor(doc_params, doctx).await? {
         if let Some(ident) = &cursor.ident() {
-            let on_context_name = cursor.is_context_name(ident);
+            let scope = cursor.scope(ident);
             let DocumentCursor { doc, context, .. } = cursor;
             if let Some(entry) = context {
-                let identifiers = find_referenced_identifiers(ident, on_context_name, &entry, &doc.ast, &doc.table);
+                let identifiers = find_referenced_identifiers(ident, scope, &entry, &doc.ast, &doc.table);
                 let references = identifiers
                     .into_iter()
                     .map(|identifier| {
@@ -105,32 +105,21 @@ pub async fn find(
 
 fn find_referenced_identifiers(
     ident: &Ident,
-    on_context_name: bool,
+    scope: Scope,
     entry: &GlobalEntry,
     program: &Program,
     global_table: &GlobalTable,
 ) -> Vec<Identifier> {
     match entry {
-        GlobalEntry::Procedure(p) => {
-            if on_context_name {
-                // the name of the procedure itself is not shadowed by its locals
-                find_procs(&ident.value, program)
-            } else {
-                let lookup_table = LookupTable {
-                    global_table: Some(global_table),
-                    local_table: Some(&p.local_table),
-                };
-                lookup_table
-                    .lookup(&ident.value)
-                    .map_or_else(Vec::new, |entry| match &entry {
-                        Entry::Type(_) => find_types(&ident.value, program),
-                        Entry::Procedure(_) => find_procs(&ident.value, program),
-                        Entry::Variable(_) | Entry::Parameter(_) => {
-                            find_vars(&ident.value, &p.name.value, program)
-                        }
-                    })
-            }
-        }
+        GlobalEntry::Procedure(p) => scope
+            .lookup(&ident.value, p, global_table)
+            .map_or_else(Vec::new, |entry| match &entry {
+                Entry::Type(_) => find_types(&ident.value, program),
+                Entry::Procedure(_) => find_procs(&ident.value, program),
+                Entry::Variable(_) | Entry::Parameter(_) => {
+                    find_vars(&ident.value, &p.name.value, program)
+                }
+            }),
         GlobalEntry::Type(_) => find_types(&ident.value, program),
     }
 }
